@@ -4,8 +4,9 @@
 //!   config = ng {retain init} np { nv {retain init bound(0/1)} }      (all variables are INT; program p's body adds p+1+i to
 //!            variable i, adds 1 to every global and publishes bound variables on %QW(16*p+2*i))
 //!   every configuration also has an event task (SINGLE := trig) whose program counts its activations in evc; op 6 v sets trig
+//!   and a periodic task (INTERVAL := T#10ms) whose program counts its activations in pc
 //!   ops    = 0 dt (cycle) | 1 i v (set global) | 2 p i v (set program var) | 3 warm(0/1) (restart) | 4 (save, power cycle, load) | 5 (fault)
-//!   obs    = per op: ng values, per program nv values, per bound variable the %QW word, time_ns, cycle_count(of the harness is not used) faulted
+//!   obs    = per op: ng values, per program nv values, per bound variable the %QW word, time_ns faulted evc pc
 use std::io::Write;
 use trust_runtime::harness::TestHarness;
 use trust_runtime::retain::FileRetainStore;
@@ -23,9 +24,9 @@ fn source(c: &Case) -> String {
     for (i, g) in c.globals.iter().enumerate() {
         s += &format!("VAR_GLOBAL{} g{i} : INT := {}; END_VAR\n", if g.retain { " RETAIN" } else { "" }, g.init);
     }
-    s += "VAR_GLOBAL trig : BOOL := FALSE; evc : INT := 0; END_VAR\nTASK Ev (SINGLE := trig, PRIORITY := 1);\nPROGRAM PE WITH Ev : MainE;\n";
+    s += "VAR_GLOBAL trig : BOOL := FALSE; evc : INT := 0; pc : INT := 0; END_VAR\nTASK Ev (SINGLE := trig, PRIORITY := 1);\nTASK Per (INTERVAL := T#10ms, PRIORITY := 2);\nPROGRAM PE WITH Ev : MainE;\nPROGRAM PP WITH Per : MainP;\n";
     for p in 0..c.progs.len() { s += &format!("PROGRAM P{p} : Main{p};\n"); }
-    s += "END_CONFIGURATION\nPROGRAM MainE\nVAR_EXTERNAL\n  evc : INT;\nEND_VAR\nevc := evc + INT#1;\nEND_PROGRAM\n";
+    s += "END_CONFIGURATION\nPROGRAM MainE\nVAR_EXTERNAL\n  evc : INT;\nEND_VAR\nevc := evc + INT#1;\nEND_PROGRAM\nPROGRAM MainP\nVAR_EXTERNAL\n  pc : INT;\nEND_VAR\npc := pc + INT#1;\nEND_PROGRAM\n";
     for (p, vars) in c.progs.iter().enumerate() {
         s += &format!("PROGRAM Main{p}\n");
         if !c.globals.is_empty() {
@@ -69,7 +70,7 @@ fn observe(h: &TestHarness, c: &Case) -> String {
             }
         }
     }
-    o += &format!(" {} {} {}", h.runtime().current_time().as_nanos(), h.runtime().faulted() as u8, ival(st.get_global("evc")));
+    o += &format!(" {} {} {} {}", h.runtime().current_time().as_nanos(), h.runtime().faulted() as u8, ival(st.get_global("evc")), ival(st.get_global("pc")));
     o
 }
 
@@ -152,7 +153,7 @@ fn gen_case(rng: &mut Rng) -> Case {
             5 => ops.push(vec![3, 1]),
             6 => ops.push(vec![4]),
             7 if rng.chance(1, 2) => ops.push(vec![5]),
-            _ => ops.push(vec![0, *rng.pick(&[0i64, 1, 1_000_000, 20_000_000])]),
+            _ => ops.push(vec![0, *rng.pick(&[0i64, 1, 1_000_000, 20_000_000, 5_000_000, 10_000_000, 9_999_999, 35_000_000])]),
         }
     }
     Case { globals, progs, ops }
